@@ -249,7 +249,7 @@ def run(chk, P):
              'previously freed memory contained (same obligations as R11.3)')
     from rules import c11
     c11.r11_3(common.Proxy(chk, 'R18.6'), P)
-    chk.floor('R18.6', 3)
+    chk.floor('R18.6', 2)
     selftest(chk, P)
     unk = sorted({u for S in E.st.values() for u in S.unknown_calls})
     chk.notes.append(f'K3: fixpoint in {E.iterations} rounds; {nsites} direct store/free sites classified; '
